@@ -103,7 +103,7 @@ fn uses_preset_schema(c: &Case) -> bool {
     }
 }
 
-/// known finding F7 (C13): From<SemVer> for Zerv panics on a repeated secondary label
+/// F7 (fixed in /repo): From<SemVer> for Zerv panicked on a repeated secondary label
 pub fn is_f7_panic(msg: &str) -> bool {
     msg.contains("SemVer default conversion should work") && msg.contains("Duplicate secondary component")
 }
@@ -130,7 +130,7 @@ fn check_l1(c: &Case, cx: &mut Cx) -> Res {
     cx.label_if(!argv(c).iter().all(|a| a.is_ascii()) || stdin.as_ref().is_some_and(|s| !s.is_ascii()), "non-ascii-input");
     match no_panic(|| check_body(body, c.pep440, uses_preset_schema(c))) {
         Ok(r) => r,
-        Err(p) if is_f7_panic(&p) => Err(Bad::Known("F7", format!("re-rendering {body:?} panics: {p}"))),
+        Err(p) if is_f7_panic(&p) => fail(format!("F7 regression: re-rendering {body:?} panics: {p}")),
         Err(p) => fail(format!("panic while re-reading output {body:?}: {p}")),
     }
 }
@@ -189,7 +189,7 @@ pub fn property() -> Property {
             }
             match no_panic(|| check_body(body, c.pep440, uses_preset_schema(c))) {
                 Ok(r) => r,
-                Err(p) if is_f7_panic(&p) => Err(Bad::Known("F7", format!("re-rendering {body:?} panics: {p}"))),
+                Err(p) if is_f7_panic(&p) => fail(format!("F7 regression: re-rendering {body:?} panics: {p}")),
                 Err(p) => fail(format!("panic while re-reading output {body:?}: {p}")),
             }
         },
@@ -201,7 +201,6 @@ pub fn property() -> Property {
         rule: "cases = (source none|stdin object, schema: default | one of the 22 presets | generated valid --schema-ron, random VCS/override/bump/index flags, output format, optional prefix); vars carry nasty Unicode text in branch/hash/custom/literal positions and boundary numbers. Oracle on every successful run: prefix + one line; body accepted by the independent SemVer recogniser resp. equal to its own PEP 440 normal form per the independent normaliser; ASCII; zerv's own parser and `check` accept it; for preset schemas re-rendering in the same format is the identity. Non-trivial = run succeeded and a free-text position (branch, hash, custom value, str() literal) contained a character outside [A-Za-z0-9], or the body has >=10 digits; distinct = distinct cases.",
         assumptions: vec![
             "only successful runs are judged here (failures: C13)",
-            "a panic of the re-render step on a repeated secondary label is known finding F7 (C13)",
             "git source is exercised by the C02/C03 git sub-checks, which apply the same body check",
         ],
         subs: vec![l1.boxed(), l2.boxed()],
